@@ -14,6 +14,7 @@ Import ListNotations.
 Inductive ev :=
 | ERegAtexit | EUnregAtexit | ESetTerm | ESetInt | ERestoreTerm | ERestoreInt
 | ELock | ERmFailed | EBodyBegin | EBodyEnd | ETouchDone | EWriteFailed | ERmPid | EUnlock
+| EFork     (* the body has forked and its child is gone *)
 | EOther.   (* anything the model never does: removal of the success marker, rewriting the pid file *)
 
 Definition ev_of (e : eff) : list ev :=
@@ -26,14 +27,25 @@ Definition ev_of (e : eff) : list ev :=
   | TouchDone => [ETouchDone]
   | WriteFailed _ => [EWriteFailed]
   | SetCleaned => [] | RmPid => [ERmPid] | Unlock => [EUnlock]
+  | Child _ => [EFork]
   end.
 Definition evs (l : list eff) : list ev := flat_map ev_of l.
+
+(* what is observed INSIDE a process forked by the body: the at-fork hook (handlers restored, exit callback
+   unregistered - in the child, not in the job process), then what it does to the job directory *)
+Definition cev_of (e : ceff) : ev :=
+  match e with CTouchDone => ETouchDone | CWriteFailed _ => EWriteFailed | CRmPid => ERmPid | CUnlock => EUnlock end.
+Definition child_evs (l : list eff) : list ev :=
+  flat_map (fun e => match e with
+                     | Child c => [ERestoreTerm; ERestoreInt; EUnregAtexit] ++ map cev_of c
+                     | _ => []
+                     end) l.
 
 Definition ev_code (e : ev) : nat :=
   match e with
   | ERegAtexit => 0 | EUnregAtexit => 1 | ESetTerm => 2 | ESetInt => 3 | ERestoreTerm => 4 | ERestoreInt => 5
   | ELock => 6 | ERmFailed => 7 | EBodyBegin => 8 | EBodyEnd => 9 | ETouchDone => 10 | EWriteFailed => 11
-  | ERmPid => 12 | EUnlock => 13 | EOther => 14
+  | ERmPid => 12 | EUnlock => 13 | EOther => 14 | EFork => 15
   end.
 Definition ev_eqb (a b : ev) : bool := Nat.eqb (ev_code a) (ev_code b).
 Definition ctx_eqb (a b : ctx) : bool :=
@@ -80,8 +92,16 @@ Record lrec := {
   l_post : list ev;               (* observable effects after it *)
   l_obs : obs;
   l_waiter : option wrec;         (* double launch: what the second process did meanwhile *)
-  l_again : bool                  (* a second death: SIGKILL before the effects of l_post were followed by another *)
+  l_again : bool;                 (* a second death: SIGKILL before the effects of l_post were followed by another *)
+  l_fork : option cexit;          (* the body forks once; how the child leaves *)
+  l_child : list ev               (* observable effects inside the forked child *)
 }.
+
+(* second death, for a body that may fork (glue only; launch2 of the model when l_fork = None) *)
+Definition launch2_f (v : variant) (fs : bool) (d : dir) (fk : option cexit) (o : outcome) (dth : death) (j : nat) : dir :=
+  let '(g, k, c) := dth in
+  let pre := firstn k (trace_f v fs fk o d) in
+  die (run_effs (pre ++ firstn j (on_signal v g c (run_effs pre (boot d)))) (boot d)).
 
 (* exception contexts possible between effect k-1 and effect k: that of either neighbour, and - when the
    run leaves the try block for the exit phase without any effect in between (a BaseException that no
@@ -96,13 +116,14 @@ Definition ctx_at_from (c0 : ctx) (t : list (ctx * eff)) (k : nat) : list ctx :=
   (match before, after with Some CTry, CAtexit => [CProp] | _, _ => [] end).
 Definition ctx_at := ctx_at_from CProp.
 
-Definition check_at (v : variant) (d : dir) (r : lrec) (g : sig) (c : ctx) (k : nat) : bool :=
-  let t := runner v (l_out r) (boot d) in
+Definition check_at (v : variant) (fs : bool) (d : dir) (r : lrec) (g : sig) (c : ctx) (k : nat) : bool :=
+  let t := runner_f v fs (l_fork r) (l_out r) (boot d) in
   let pre := firstn k (map snd t) in
   list_eqb ev_eqb (evs pre) (l_pre r)
+  && list_eqb ev_eqb (child_evs pre) (l_child r)
   && existsb (ctx_eqb c) (ctx_at t k)
   && list_eqb ev_eqb (evs (on_signal v g c (run_effs pre (boot d)))) (l_post r)
-  && obs_eqb (launch v d (l_out r) (Some (g, k, c))) (l_obs r).
+  && obs_eqb (launch_f v fs d (l_fork r) (l_out r) (Some (g, k, c))) (l_obs r).
 
 (* ---- a second death: the observed effects after the first signal are a prefix (up to silent steps) of
    what the model does after it, and the directory is the one the model leaves when it stops there *)
@@ -112,15 +133,16 @@ Fixpoint first_some {A B} (f : A -> option B) (l : list A) : option B :=
   | x :: l' => match f x with Some y => Some y | None => first_some f l' end
   end.
 
-Definition check_at2 (v : variant) (d : dir) (r : lrec) (g : sig) (c : ctx) (k : nat) : option dir :=
-  let t := runner v (l_out r) (boot d) in
+Definition check_at2 (v : variant) (fs : bool) (d : dir) (r : lrec) (g : sig) (c : ctx) (k : nat) : option dir :=
+  let t := runner_f v fs (l_fork r) (l_out r) (boot d) in
   let pre := firstn k (map snd t) in
-  if list_eqb ev_eqb (evs pre) (l_pre r) && existsb (ctx_eqb c) (ctx_at t k) then
+  if list_eqb ev_eqb (evs pre) (l_pre r) && list_eqb ev_eqb (child_evs pre) (l_child r)
+     && existsb (ctx_eqb c) (ctx_at t k) then
     let h := on_signal v g c (run_effs pre (boot d)) in
     match find (fun j => list_eqb ev_eqb (evs (firstn j h)) (l_post r)
-                         && obs_eqb (launch2 v d (l_out r) (g, k, c) j) (l_obs r))
+                         && obs_eqb (launch2_f v fs d (l_fork r) (l_out r) (g, k, c) j) (l_obs r))
                (List.seq 0 (S (length h))) with
-    | Some j => Some (launch2 v d (l_out r) (g, k, c) j)
+    | Some j => Some (launch2_f v fs d (l_fork r) (l_out r) (g, k, c) j)
     | None => None
     end
   else None.
@@ -145,7 +167,7 @@ Definition check_rest (v : variant) (d : dir) (r : lrec) (ow : outcome) (dw : de
   && obs_eqb (double v d (l_out r) ow dw (Some (g, k, c))) (l_obs r).
 
 Definition check_double (v : variant) (d : dir) (r : lrec) (w : wrec) : option dir :=
-  if d_done d || l_again r then None else
+  if d_done d || l_again r || (match l_fork r with Some _ => true | None => false end) then None else
   let '(gw, cw) := w_death w in
   match find (check_wait v d w) (List.seq 0 5) with
   | None => None
@@ -168,32 +190,37 @@ Definition check_double (v : variant) (d : dir) (r : lrec) (w : wrec) : option d
   end.
 
 (* the model's directory after the launch, if the model explains the record *)
-Definition check_launch (v : variant) (d : dir) (r : lrec) : option dir :=
+Definition check_launch (v : variant) (fs : bool) (d : dir) (r : lrec) : option dir :=
   match l_waiter r with Some w => check_double v d r w | None =>
+  let tr := trace_f v fs (l_fork r) (l_out r) d in
   match l_death r with
   | None =>
-      if list_eqb ev_eqb (evs (trace v (l_out r) d)) (l_pre r)
+      if list_eqb ev_eqb (evs tr) (l_pre r)
+         && list_eqb ev_eqb (child_evs tr) (l_child r)
          && list_eqb ev_eqb [] (l_post r)
-         && obs_eqb (launch v d (l_out r) None) (l_obs r)
-      then Some (launch v d (l_out r) None) else None
+         && obs_eqb (launch_f v fs d (l_fork r) (l_out r) None) (l_obs r)
+      then Some (launch_f v fs d (l_fork r) (l_out r) None) else None
   | Some (g, c) =>
-      if l_again r then first_some (check_at2 v d r g c) (List.seq 0 (S (length (trace v (l_out r) d)))) else
-      match find (check_at v d r g c) (List.seq 0 (S (length (trace v (l_out r) d)))) with
-      | Some k => Some (launch v d (l_out r) (Some (g, k, c)))
+      if l_again r then first_some (check_at2 v fs d r g c) (List.seq 0 (S (length tr))) else
+      match find (check_at v fs d r g c) (List.seq 0 (S (length tr))) with
+      | Some k => Some (launch_f v fs d (l_fork r) (l_out r) (Some (g, k, c)))
       | None => None
       end
   end end.
 
-Fixpoint check_history (v : variant) (d : dir) (rs : list lrec) : bool :=
+Fixpoint check_history (v : variant) (fs : bool) (d : dir) (rs : list lrec) : bool :=
   match rs with
   | [] => true
-  | r :: rs' => match check_launch v d r with Some d' => check_history v d' rs' | None => false end
+  | r :: rs' => match check_launch v fs d r with Some d' => check_history v fs d' rs' | None => false end
   end.
 
 (* a case starts from a freshly generated job directory; the model is the repaired runner
-   (fixes/C10-1.diff and fixes/C10-2.diff) *)
-Definition check_case (rs : list lrec) : bool := check_history Guarded fresh rs.
-(* diagnosis only: the same against the literal models of earlier states of the code
-   (Fixed: /repo 3854c75, before fixes/C10-2.diff; Prefix: the pinned commit) *)
-Definition check_case_fixed (rs : list lrec) : bool := check_history Fixed fresh rs.
-Definition check_case_prefix (rs : list lrec) : bool := check_history Prefix fresh rs.
+   (fixes/C10-1.diff, C10-2.diff and C10-3.diff) *)
+Definition check_case (rs : list lrec) : bool := check_history Guarded true fresh rs.
+(* the same against the literal models of earlier states of the code.  check_case_forkunsafe = /repo 36bcb7f
+   (before fixes/C10-3.diff: a forked child still goes through the except clauses of TaskRunner.run); it is the
+   checker used when a directed probe shows that the tree under test does not contain that repair.
+   Diagnosis only: check_case_fixed (/repo 3854c75, before fixes/C10-2.diff), check_case_prefix (pinned commit) *)
+Definition check_case_forkunsafe (rs : list lrec) : bool := check_history Guarded false fresh rs.
+Definition check_case_fixed (rs : list lrec) : bool := check_history Fixed false fresh rs.
+Definition check_case_prefix (rs : list lrec) : bool := check_history Prefix false fresh rs.
